@@ -33,6 +33,10 @@ type Int struct {
 	In     int   // input index + 1 (0 = not linear in an input)
 	Off    int64 // value = input + Off
 	Name   string
+	// L, if set, is the little-endian byte decomposition of the value: one
+	// symbolic lane name per byte ("0" for a zero byte). It lets word-wise
+	// XOR/shift/or code be compared byte by byte.
+	L []string
 }
 
 func K(v int64) Int                    { return Int{Lo: v, Hi: v} }
